@@ -74,8 +74,15 @@ let eval old toks =
   | ["ge"; a; b; c; d] -> outb ((pick rdpe_ge rdpe_ge_old) (rd a b) (rd c d))
   | ["cmod"; a; b; c; d] -> outr (cdpe_mod (cd a b c d))
   | ["csmod"; a; b; c; d] -> outr (cdpe_smod (cd a b c d))
-  | ["cadd"; a; b; c; d; e; f; g; h] -> outc (cdpe_add (cd a b c d) (cd e f g h))
-  | ["csub"; a; b; c; d; e; f; g; h] -> outc (cdpe_sub (cd a b c d) (cd e f g h))
+  | ["cadd"; a; b; c; d; e; f; g; h] ->
+      let x = cd a b c d and y = cd e f g h in
+      if not old then outc (cdpe_add x y)
+      else if rdpe_add_old_out_of_model x.cre y.cre || rdpe_add_old_out_of_model x.cim y.cim then "OOM"
+      else outc { cre = rdpe_add_old x.cre y.cre; cim = rdpe_add_old x.cim y.cim }
+  | ["csub"; a; b; c; d; e; f; g; h] ->
+      let x = cd a b c d and y = cd e f g h in
+      if not old then outc (cdpe_sub x y)
+      else outc { cre = rdpe_sub_old x.cre y.cre; cim = rdpe_sub_old x.cim y.cim }
   | ["cmul"; a; b; c; d; e; f; g; h] | ["cmul_eq"; a; b; c; d; e; f; g; h] ->
       outc ((pick cdpe_mul cdpe_mul_old) (cd a b c d) (cd e f g h))
   | ["cdiv"; a; b; c; d; e; f; g; h] -> outc ((pick cdpe_div cdpe_div_old) (cd a b c d) (cd e f g h))
